@@ -31,7 +31,7 @@ BUDGETS = {
     # pid: tier: (total run indices, per-worker wall budget seconds)
     "C03": {"quick": (24000, 55), "thorough": (600000, 900)},
     "C04": {"quick": (16000, 55), "thorough": (300000, 900)},
-    "C05": {"quick": (1600, 60), "thorough": (40000, 900)},
+    "C05": {"quick": (1600, 45), "thorough": (40000, 900)},
     "C06": {"quick": (16000, 55), "thorough": (300000, 900)},
     "C07": {"quick": (60000, 50), "thorough": (1500000, 900)},
     "C09": {"quick": (40000, 55), "thorough": (800000, 900)},
